@@ -5,7 +5,8 @@
 //   cabinet    random histories on one Cabinet<Obj>: alloc/update/free/at/[]/clear/foreach-with-removal/reserve, with live,
 //              stale, null (id 0) and forged tokens
 //   cabinet-x  every history of fixed --depth over a 16-operation alphabet (tokens addressed by issue order, plus the null token)
-//   pool       random alloc/free histories on 1-2 ObjectPool<T> (three probe types, retention limits 0,1,2,3,64,unbounded)
+//   pool       random alloc/free histories on 1-2 ObjectPool<T> (four probe types, one of which re-enters alloc()/free() of its
+//              own pool from its constructor/destructor; retention limits 0,1,2,3,64,unbounded)
 //   fd         random copy/move/assign/swap/reset/close/destroy histories on up to 6 Fd handles over recording
 //              close functions and real pipe descriptors
 //   fd-x       every history of fixed --depth over a 36-operation alphabet on 3 Fd handles
@@ -35,9 +36,12 @@
 
 #if defined(__SANITIZE_ADDRESS__)
 // (gcc ships asan_interface.h but not allocator_interface.h; the symbol is exported by libasan)
+extern "C" void __lsan_ignore_object(const void *p);
 extern "C" int __sanitizer_install_malloc_and_free_hooks(void (*malloc_hook)(const volatile void *, size_t),
                                                          void (*free_hook)(const volatile void *));
 # define C08_HAVE_ALLOC_HOOKS 1
+#else
+static inline void __lsan_ignore_object(const void *) {}
 #endif
 
 using tbox::cabinet::Cabinet;
@@ -751,6 +755,8 @@ template <size_t PAD> struct Probe {
         return true;
     }
     static const char *name() { return PAD > 64 ? "Probe<big>" : "Probe<small>"; }
+    static const bool kNested = false;
+    static void prepare(void *, int) {}
 };
 //! one byte: smaller than the free-list link that the pool threads through parked blocks
 struct Tiny {
@@ -762,15 +768,69 @@ struct Tiny {
     Tiny(const Tiny &) = delete;
     bool intact(uint64_t, uint8_t f) const { return fill == f; }
     static const char *name() { return "Tiny"; }
+    static const bool kNested = false;
+    static void prepare(void *, int) {}
+};
+
+//! A node whose constructor allocates its child from the SAME pool (chains of 1-4 nodes) and whose destructor gives the child
+//! back: alloc() and free() are re-entered while the outer call is still running. The storage of a node counts as in use from
+//! the first statement of its constructor.
+struct Chain;
+tbox::ObjectPool<Chain> *g_chain_pool = nullptr;   // pool the next top-level node is taken from (set by the world before the call)
+int g_chain_depth = 0;                             // number of descendants the next top-level node creates
+uint64_t g_chain_nested_allocs = 0, g_chain_nested_frees = 0;
+struct Chain {
+    struct Nested {};
+    uint64_t serial;
+    const Chain *self;
+    tbox::ObjectPool<Chain> *owner;
+    Chain *child;
+    int level;
+    uint8_t fill;
+    uint8_t pad[19];
+    Chain() : Chain((uint64_t)0, (uint8_t)0x5a, g_chain_depth, Nested()) {}
+    Chain(uint64_t s, uint8_t f) : Chain(s, f, g_chain_depth, Nested()) {}
+    Chain(std::unique_ptr<uint64_t> s, const uint8_t &f) : Chain(*s, f, g_chain_depth, Nested()) {}
+    Chain(uint64_t s, uint8_t f, int lvl, Nested) : serial(s), self(this), owner(g_chain_pool), child(nullptr), level(lvl), fill(f) {
+        memset(pad, f, sizeof pad);
+        probe_ctor(this, sizeof(*this), s);
+        if (lvl > 0 && !g->failed) {
+            ++g_chain_nested_allocs;
+            child = owner->alloc(s, f, lvl - 1, Nested());      // re-enters ObjectPool::alloc on the same pool
+        }
+    }
+    ~Chain() {
+        // after a violation nothing is re-entered any more (the links may be nonsense by then)
+        if (child != nullptr && !g->failed) { ++g_chain_nested_frees; owner->free(child); }
+        probe_dtor(this);
+        serial = ~serial; self = nullptr; child = nullptr; memset(pad, 0xdd, sizeof pad);
+    }
+    Chain(const Chain &) = delete;
+    Chain &operator=(const Chain &) = delete;
+    bool intact(uint64_t s, uint8_t f) const {
+        const Chain *n = this;
+        for (int lvl = level; ; --lvl) {
+            if (lvl < 0 || lvl > 3) return false;
+            if (n->serial != s || n->self != n || n->fill != f || n->level != lvl || n->owner != owner) return false;
+            for (size_t i = 0; i < sizeof n->pad; ++i) if (n->pad[i] != f) return false;
+            if ((n->child != nullptr) != (lvl > 0)) return false;
+            if (lvl == 0) return true;
+            n = n->child;
+        }
+    }
+    static const char *name() { return "Chain"; }
+    static const bool kNested = true;
+    static void prepare(void *pool, int depth) { g_chain_pool = static_cast<tbox::ObjectPool<Chain> *>(pool); g_chain_depth = depth; }
 };
 
 const size_t KEEP_INF = std::numeric_limits<size_t>::max();
 
 template <typename T> struct PoolWorld {
-    struct Item { T *p; uint64_t serial; uint8_t fill; };
+    struct Item { T *p; uint64_t serial; uint8_t fill; size_t n; };     // n = objects built by that alloc (1 + descendants)
     struct P {
         std::unique_ptr<tbox::ObjectPool<T> > pool;
         size_t keep = KEEP_INF, parked = 0, peak_parked = 0, peak_live = 0, allocs = 0, frees = 0;
+        size_t live_objs = 0;
         std::vector<Item> live;
     };
     std::vector<P> pools;
@@ -780,50 +840,61 @@ template <typename T> struct PoolWorld {
     void make_pool(size_t i, size_t keep) {
         P &p = pools[i];
         { Lib l; if (keep == KEEP_INF) p.pool.reset(new tbox::ObjectPool<T>()); else p.pool.reset(new tbox::ObjectPool<T>(keep)); }
-        p.keep = keep; p.parked = p.peak_parked = p.peak_live = p.allocs = p.frees = 0;
+        p.keep = keep; p.parked = p.peak_parked = p.peak_live = p.allocs = p.frees = p.live_objs = 0;
         g->sig.add(20); g->sig.add(keep);
         logop(keep == KEEP_INF ? vh::fmt("p%zu=Pool()", i) : vh::fmt("p%zu=Pool(%zu)", i, keep));
         vh::counter(keep == KEEP_INF ? "pool_keep_unbounded" : keep == 0 ? "pool_keep_0" : keep <= 3 ? "pool_keep_1to3" : "pool_keep_64");
     }
 
-    void op_alloc(size_t i, int ctor_kind, uint8_t fill) {
+    //! depth: number of descendants the constructor allocates from the same pool (only for the nested probe type)
+    void op_alloc(size_t i, int ctor_kind, uint8_t fill, int depth = 0) {
         P &p = pools[i];
+        if (!T::kNested) depth = 0;
+        const size_t n = (size_t)depth + 1;
+        const size_t from_list_n = p.parked < n ? p.parked : n;
+        T::prepare(p.pool.get(), depth);
         uint64_t serial = next_serial++;
         uint64_t m0 = trk::mallocs, c0 = g_reg->ctors, d0 = g_reg->dtors;
         T *o = nullptr;
         static const bool trace = vh::st().args.num("trace-heap", 0) != 0;
-        if (trace) trk::trace_budget = p.parked > 0 ? 0 : 1;
+        if (trace) trk::trace_budget = (int)(n - from_list_n);
         if (ctor_kind == 0) { fill = 0x5a; serial = 0; Lib l; o = p.pool->alloc(); }
         else if (ctor_kind == 1) { Lib l; o = p.pool->alloc(serial, fill); }
         else { std::unique_ptr<uint64_t> s(new uint64_t(serial)); Lib l; o = p.pool->alloc(std::move(s), fill); }
         uint64_t dm = trk::mallocs - m0;
         trk::trace_budget = -1;
         g->sig.add(21); g->sig.add(i); g->sig.add((uint64_t)ctor_kind);
-        logop(vh::fmt("p%zu.alloc[%d]", i, ctor_kind));
-        CNT("pool_alloc");
-        ++p.allocs;
+        g->sig.add((uint64_t)depth);
+        logop(depth ? vh::fmt("p%zu.alloc[%d]x%zu", i, ctor_kind, n) : vh::fmt("p%zu.alloc[%d]", i, ctor_kind));
+        CNTN("pool_alloc", n);
+        p.allocs += n;
+        if (depth > 0) {
+            CNT("pool_nested_alloc_in_ctor");
+            if (p.parked > 0) CNT("pool_nested_alloc_in_ctor_with_parked_blocks");
+            if (p.parked >= n) CNT("pool_nested_chain_built_entirely_from_parked_blocks");
+        }
         if (g->failed) return;
         CHK(o != nullptr, "pool/alloc/null", "alloc returned a null pointer");
         if (g->failed) return;
-        CHK(g_reg->ctors == c0 + 1 && g_reg->dtors == d0, "pool/alloc/constructor-count",
-            "one alloc ran %llu constructors and %llu destructors of %s (exactly one constructor expected)",
-            (unsigned long long)(g_reg->ctors - c0), (unsigned long long)(g_reg->dtors - d0), T::name());
+        CHK(g_reg->ctors == c0 + n && g_reg->dtors == d0, "pool/alloc/constructor-count",
+            "alloc of %zu object(s) ran %llu constructors and %llu destructors of %s (exactly one constructor per alloc expected)",
+            n, (unsigned long long)(g_reg->ctors - c0), (unsigned long long)(g_reg->dtors - d0), T::name());
         if (g->failed) return;
         CHK(g_reg->live.count(reinterpret_cast<const char *>(o)), "pool/alloc/constructed-elsewhere",
             "alloc returned %p but the constructor did not run there", (void *)o);
         CHK(((uintptr_t)o % alignof(T)) == 0, "pool/alloc/misaligned", "alloc returned %p, not aligned to %zu", (void *)o, alignof(T));
         if (g->failed) return;
         CHK(o->intact(serial, fill), "pool/alloc/arguments-not-forwarded", "the object constructed by alloc does not hold the values passed in");
-        bool from_list = p.parked > 0;
         if (trk::available)
-            CHK(dm == (from_list ? 0u : 1u), "pool/retention/alloc-heap-traffic",
-                "alloc with %zu parked block(s) made %llu heap allocation(s); the documented behaviour is to take a parked block when there is one and malloc only otherwise",
-                p.parked, (unsigned long long)dm);
-        if (from_list) { --p.parked; CNT("pool_alloc_from_free_list"); saw_reuse = true; }
-        else CNT("pool_alloc_from_heap");
-        p.live.push_back(Item{o, serial, fill});
-        if (p.live.size() > p.peak_live) p.peak_live = p.live.size();
-        CMAX("max_pool_live", p.live.size());
+            CHK(dm == n - from_list_n, "pool/retention/alloc-heap-traffic",
+                "alloc of %zu object(s) with %zu parked block(s) made %llu heap allocation(s); the documented behaviour is to take a parked block when there is one and malloc only otherwise",
+                n, p.parked, (unsigned long long)dm);
+        if (from_list_n) { p.parked -= from_list_n; CNTN("pool_alloc_from_free_list", from_list_n); saw_reuse = true; }
+        if (n > from_list_n) CNTN("pool_alloc_from_heap", n - from_list_n);
+        p.live.push_back(Item{o, serial, fill, n});
+        p.live_objs += n;
+        if (p.live_objs > p.peak_live) p.peak_live = p.live_objs;
+        CMAX("max_pool_live", p.live_objs);
     }
 
     void op_free(size_t i, size_t which) {
@@ -834,26 +905,31 @@ template <typename T> struct PoolWorld {
             (unsigned long long)it.serial, (void *)it.p);
         if (g->failed) return;
         uint64_t f0 = trk::frees, m0 = trk::mallocs, c0 = g_reg->ctors, d0 = g_reg->dtors;
+        const size_t n = it.n;
+        const size_t room = p.keep - p.parked;                  // parked <= keep always holds in the model
+        const size_t parks_n = room < n ? room : n;
+        T::prepare(p.pool.get(), 0);
         { Lib l; p.pool->free(it.p); }
         uint64_t df = trk::frees - f0, dm = trk::mallocs - m0;
         g->sig.add(22); g->sig.add(i); g->sig.add(which);
         logop(vh::fmt("p%zu.free(#%llu)", i, (unsigned long long)it.serial));
-        CNT("pool_free");
-        ++p.frees;
+        CNTN("pool_free", n);
+        p.frees += n;
+        p.live_objs -= n;
+        if (n > 1) CNT("pool_nested_free_in_dtor");
         if (g->failed) return;
-        CHK(g_reg->dtors == d0 + 1 && g_reg->ctors == c0, "pool/free/destructor-count",
-            "one free ran %llu destructors and %llu constructors of %s (exactly one destructor expected)",
-            (unsigned long long)(g_reg->dtors - d0), (unsigned long long)(g_reg->ctors - c0), T::name());
+        CHK(g_reg->dtors == d0 + n && g_reg->ctors == c0, "pool/free/destructor-count",
+            "free of %zu object(s) ran %llu destructors and %llu constructors of %s (exactly one destructor per free expected)",
+            n, (unsigned long long)(g_reg->dtors - d0), (unsigned long long)(g_reg->ctors - c0), T::name());
         if (g->failed) return;
         CHK(!g_reg->live.count(reinterpret_cast<const char *>(it.p)), "pool/free/wrong-object-destroyed",
             "free(%p) ran a destructor, but not the one of the object passed in", (void *)it.p);
-        bool parks = p.parked < p.keep;
         if (trk::available)
-            CHK(df == (parks ? 0u : 1u) && dm == 0, "pool/retention/free-heap-traffic",
-                "free with %zu parked block(s) and a retention limit of %zu released %llu heap block(s) (expected %d)",
-                p.parked, p.keep, (unsigned long long)df, parks ? 0 : 1);
-        if (parks) { ++p.parked; CNT("pool_free_parked"); if (p.parked > p.peak_parked) p.peak_parked = p.parked; }
-        else { CNT("pool_free_released"); saw_release = true; }
+            CHK(df == n - parks_n && dm == 0, "pool/retention/free-heap-traffic",
+                "free of %zu object(s) with %zu parked block(s) and a retention limit of %zu released %llu heap block(s) (expected %zu)",
+                n, p.parked, p.keep, (unsigned long long)df, n - parks_n);
+        if (parks_n) { p.parked += parks_n; CNTN("pool_free_parked", parks_n); if (p.parked > p.peak_parked) p.peak_parked = p.parked; }
+        if (n > parks_n) { CNTN("pool_free_released", n - parks_n); saw_release = true; }
         CMAX("max_pool_parked", p.parked);
     }
 
@@ -886,7 +962,7 @@ template <typename T> struct PoolWorld {
                     return;
                 }
             }
-            total_live += p.live.size();
+            total_live += p.live_objs;
             tbox::ObjectPoolStat s;
             { Lib l; s = p.pool->getStat(); }
             CHK(s.total_alloc_times == p.allocs && s.total_free_times == p.frees, "pool/stat/call-counts",
@@ -925,19 +1001,28 @@ template <typename T> void pool_case_t(vh::Rng &r, Ctx &c) {
             if (x < 2) {
                 w.op_destroy_pool(i);
             } else if (x < 2 + alloc_w && p.live.size() < cap) {
-                w.op_alloc(i, (int)r.below(3), r.byte());
+                w.op_alloc(i, (int)r.below(3), r.byte(), (int)r.below(4));
             } else if (!p.live.empty()) {
                 size_t which;
                 switch (r.below(3)) { case 0: which = p.live.size() - 1; break; case 1: which = 0; break; default: which = r.below(p.live.size()); }
                 w.op_free(i, which);
             } else {
-                w.op_alloc(i, (int)r.below(3), r.byte());
+                w.op_alloc(i, (int)r.below(3), r.byte(), (int)r.below(4));
             }
             w.verify();
         }
         for (size_t i = 0; i < npools && !c.failed; ++i) if (w.pools[i].pool) w.op_destroy_pool(i);
         w.verify();
-        if (c.failed) {
+        if (c.failed && T::kNested) {
+            // the links between nodes may be nonsense now: do not run any more library code on them. Whatever is left is
+            // deliberately abandoned and hidden from LeakSanitizer (the violation has been reported).
+            for (auto &kv : reg.live) __lsan_ignore_object(kv.first);
+            for (size_t k = 0; k < trk::used_n; ++k) {      // every block the pool allocated in this case and has not released
+                const volatile void *b = trk::tab[trk::used_idx[k]];
+                if (b != nullptr && b != trk::TOMB) __lsan_ignore_object(const_cast<const void *>(b));
+            }
+            for (auto &p : w.pools) { if (p.pool) __lsan_ignore_object(p.pool.release()); p.live.clear(); }
+        } else if (c.failed) {
             // best effort: give the remaining objects back without consulting the (possibly broken) pool state again
             for (auto &p : w.pools) { for (auto &it : p.live) if (p.pool && reg.live.count(reinterpret_cast<const char *>(it.p))) { Lib l; p.pool->free(it.p); } p.live.clear(); }
         }
@@ -954,10 +1039,11 @@ template <typename T> void pool_case_t(vh::Rng &r, Ctx &c) {
 void pool_case(uint64_t, vh::Rng &r) {
     Ctx c; g = &c;
     trk::reset();
-    switch (r.below(3)) {
+    switch (r.below(4)) {
         case 0: c.sig.add(100); CNT("pool_type_tiny"); pool_case_t<Tiny>(r, c); break;
         case 1: c.sig.add(101); CNT("pool_type_small"); pool_case_t<Probe<7> >(r, c); break;
-        default: c.sig.add(102); CNT("pool_type_big"); pool_case_t<Probe<200> >(r, c); break;
+        case 2: c.sig.add(102); CNT("pool_type_big"); pool_case_t<Probe<200> >(r, c); break;
+        default: c.sig.add(103); CNT("pool_type_nested_chain"); pool_case_t<Chain>(r, c); break;
     }
     check_no_lost_blocks("pool");
     g = nullptr;
